@@ -4,6 +4,7 @@ Not decided: "the returned height is a root of the excess" (numerical), and "the
 selected one fails" for every threshold position (a loop-invariant argument over sign patterns - model
 checking, another family).  Decided:
 
+  R05.0  the live GHE the manager sizes is the selected field (shared with C01 R01.2)
   R05.1  final pick of Bisection1D.search: keys and values come from the same dictionary of evaluated
          candidates; the candidates are ordered by their borehole count ascending (plain sorted, no reverse /
          key); the first one with negative excess replaces the pick and the scan stops; the pick is mapped
@@ -44,11 +45,31 @@ Q = f"{SR}.Bisection1D.search"
 
 def check(prog: Program, tier: str) -> Result:
     res = Result(PROP)
+    _live_object(prog, res)
     _final_pick(prog, res)
     _roles(prog, res)
     _nested(prog, res)
     _tolerances(prog, res)
     return res
+
+
+def _live_object(prog: Program, res: Result):
+    """R05.0: what the manager sizes is the field the search selected (shared with C01 R01.2): otherwise the reported
+    drilling belongs to another candidate than the one the search found sufficient"""
+    from . import c01
+
+    tmp = Result("C01")
+    c01._bisection1d(prog, tmp, 1)
+    c01._successive(prog, tmp, 1)
+    c01._nested_ctors(prog, tmp)
+    for o in tmp.obligations:
+        if o.rule == "R01.2":
+            res.ob("R05.0", o.desc, o.ok, o.where)
+    for f in tmp.findings:
+        if f.rule == "R01.2":
+            res.violation("R05.0", f.key.split("|", 2)[-1], f.where, f.func, f.message + " - the drilling that is sized and reported is not that of the selected candidate")
+    for fn in tmp.functions:
+        res.analysed(fn)
 
 
 def _def_of(fn, name, before=None):
@@ -76,7 +97,16 @@ def _final_pick(prog: Program, res: Result):
             if d is not None and "self.calculated_temperatures.values()" in ast.unparse(d.value):
                 pick = n
     if pick is None:
-        raise AnalysisError(f"{Q}: final pick '<values>.index(<excess>)' not found")
+        alt = sc.argopt_final_pick(fn)
+        if alt is None:
+            raise AnalysisError(f"{Q}: final pick not found (neither '<values>.index(<excess>)' nor 'min|max(<feasible>, key=...)')")
+        good = (alt["criterion"] == "size" and alt["func"] == "min") or (alt["criterion"] == "index" and alt["func"] == "min")
+        res.ob("R05.1", f"final pick = the SMALLEST evaluated feasible field ({norm_stmt(alt['node'])[:80]})", good, prog.loc(fi, alt["node"]))
+        if not good:
+            how = {"excess": "by the value of the excess (closest to zero / most negative)", "size": "the LARGEST field", "index": "the largest index", "unknown": "by an unrecognised criterion"}[alt["criterion"]]
+            res.violation("R05.1", f"final-pick-criterion|{alt['func']}|{alt['criterion']}", prog.loc(fi, alt["node"]), Q,
+                          f"'{norm_stmt(alt['node'])[:100]}' picks the returned candidate {how}; under a non-monotone excess a larger field than the smallest evaluated feasible one is returned")
+        return
     vals, var = pick.func.value.id, pick.args[0].id
     # (e) index mapped back through the keys of the same dictionary
     asg = next((s for s in walk_no_nested(fn) if isinstance(s, ast.Assign) and any(pick is x for x in ast.walk(s.value))), None)
@@ -347,7 +377,40 @@ def _tolerances(prog: Program, res: Result):
 
 
 GHX = "ghedesigner.ground_heat_exchangers"
+
+_TAIL = """        keys = list(self.calculated_temperatures.keys())
+        values = list(self.calculated_temperatures.values())
+
+        # theoretically, the biggest negative value should be the field that is just undersized
+        negative_excess_values = [v for v in values if v <= 0.0]
+        excess_of_interest = max(negative_excess_values)
+
+        # but some conditions don't yield this result
+        # adding a check here to ensure we pick the smallest field with
+        # negative excess temperature
+        num_bh = [len(self.coordinates_domain[x]) for x in keys]
+        sorted_num_bh, sorted_values = (list(t) for t in zip(*sorted(zip(num_bh, values))))
+        for _, val in zip(sorted_num_bh, sorted_values):
+            if val < 0:
+                if excess_of_interest != val:
+                    print(
+                        'Loads resulted in odd behavior requiring the selected field configuration \\n'
+                        'to be reset to the smallest field with negative excess temperature. \\n'
+                        'Please forward the inputs to the developers for investigation.'
+                    )
+                excess_of_interest = val
+                break
+
+        idx = values.index(excess_of_interest)
+        selection_key = keys[idx]
+"""
+
 VARIANTS = [
+    Variant("final pick rewritten as arg-max of the excess among feasible candidates", "break",
+            [(SR, _TAIL, "        negative_excess = {k: v for k, v in self.calculated_temperatures.items() if v <= 0.0}\n        selection_key = max(negative_excess, key=negative_excess.get)\n")], "R05.1"),
+    Variant("final pick rewritten as arg-min of the field size among feasible candidates", "benign",
+            [(SR, _TAIL, "        feasible = [k for k, v in self.calculated_temperatures.items() if v <= 0.0]\n        selection_key = min(feasible, key=lambda k: len(self.coordinates_domain[k]))\n")]),
+
     Variant("bracket updates swapped", "break",
             [(SR, "            if c_sign == x_l_sign:\n                x_l_idx = c_idx\n            else:\n                x_r_idx = c_idx", "            if c_sign == x_l_sign:\n                x_r_idx = c_idx\n            else:\n                x_l_idx = c_idx")], "R05.2"),
     Variant("candidates sorted descending", "break",
